@@ -1022,7 +1022,7 @@ func c03Worker(c *core.Collector, x *Ctx) {
 					defer close(done)
 					c03RunCase(tgt, tc.Ver, in, nil, func(sig, detail string) {
 						c.Violate(sig, detail+fmt.Sprintf(" [body of %d bytes, %s]", len(in), tc.Name), cs)
-					}, len(in) == len(body))
+					}, len(in) == len(body) && len(in) <= 100000) // (the renderers build their text by repeated concatenation: quadratic, tens of seconds beyond 100 KB)
 				}()
 				select {
 				case <-done:
